@@ -153,7 +153,7 @@ P("C12",
   "create_order with an ARBITRARY price on an arbitrary table, for each tick 1..10: Ok <=> the price is a multiple of the tick (market orders always); a rejected "
   "creation reports (price, tick), consumes no id and leaves every existing record, every view and both side indexes unchanged; the grid invariant (every "
   "limit order's price is a multiple of the tick) is re-established by placements and by modifications, with modify prices UNCONSTRAINED in the isolating harness.",
-  [book(f"c12_create_tick{t}_m2", f"create_order(any side, any volume, any u32 price | market), tick {t}", covers=["cover.limit_order_created", "cover.creation_rejected"], timeout=600,
+  [book(f"c12_create_tick{t}_m2", f"create_order(any side, any volume, any u32 price | market), tick {t}", covers=["cover.limit_order_created"] + (["cover.creation_rejected"] if t > 1 else []), timeout=600,
         tiers=("quick", "thorough") if t in (1, 2, 3, 7, 10) else ("thorough",)) for t in range(1, 11)]
   + [book("c12_grid_place_tick3_off_m2", "placement (any kind) on a tick-3 book keeps every price on the grid; views == recomputation", covers=["cover.placed_while_disabled"]),
      book("c12_grid_modify_ongrid_tick3_m2", "modify to any ON-grid price on a tick-3 book keeps the grid; views == recomputation", covers=["cover.modify_trades", "cover.modify_non_active"]),
@@ -212,7 +212,7 @@ PROPS["C08"] = {
 }
 
 SUBMIT = [de(f"env_submit_tick{t}_m2", f"one place / cancel / modify submission between steps, tick {t}: live book, cache, histories, waiting instructions untouched; order appears as New iff created; queue grows by exactly that instruction",
-             covers=["cover.limit_order_created", "cover.creation_rejected"], tiers=("quick", "thorough") if t in (1, 3, 10) else ("thorough",), timeout=600) for t in range(1, 11)]
+             covers=["cover.limit_order_created"] + (["cover.creation_rejected"] if t > 1 else []), tiers=("quick", "thorough") if t in (1, 3, 10) else ("thorough",), timeout=600) for t in range(1, 11)]
 
 PROPS["C10"] = {
     "level": "model_checking", "functions": ["Env::<L>::{place_order,cancel_order,modify_order,level_2_data,step}", "OrderBook::create_order"] + STEP_FUNCS[2:],
